@@ -170,3 +170,4 @@ def run(ctx):
   src = nul.NullSources(call_names={"get_caption_to_process"}, getter_paths={"get_caption_to_process()"})
   nt = nul.check_sources(ctx, common.funcs(ctx, ["ttconv.scc.context", "ttconv.scc.line"]), src, rule="NUL")
   ctx.floor("NUL", "dereferences of the caption to process", nt, 10)
+  common.check_history_independence(ctx, [n for n in ctx.ix.modules if n.startswith("ttconv.scc")] + ["ttconv.time_code"])
